@@ -318,14 +318,38 @@ impl<AnyLoader: Loader> Context<AnyLoader> {
 
 /// Make a url relative to a given base.
 fn relative<'a>(base: &SourceKind, url: &'a str) -> Cow<'a, str> {
-    base.next()
+    let joined: Cow<'a, str> = base
+        .next()
         .map(SourcePos::file_url)
         .and_then(|base| {
             base.rfind('/')
                 .map(|p| base.split_at(p + 1).0)
                 .map(|base| format!("{base}{url}").into())
         })
-        .unwrap_or_else(|| url.into())
+        .unwrap_or_else(|| url.into());
+    normalize(joined)
+}
+
+/// Remove `.` segments and resolve `..` segments of a relative url,
+/// so different spellings of the same file get the same name.
+fn normalize(url: Cow<str>) -> Cow<str> {
+    if url.contains("://")
+        || url.starts_with('/')
+        || !url.split('/').any(|part| part == "." || part == "..")
+    {
+        return url;
+    }
+    let mut parts: Vec<&str> = Vec::new();
+    for part in url.split('/') {
+        match part {
+            "." => (),
+            ".." if parts.last().is_some_and(|p| *p != "..") => {
+                parts.pop();
+            }
+            part => parts.push(part),
+        }
+    }
+    parts.join("/").into()
 }
 
 impl<T: fmt::Debug> fmt::Debug for Context<T> {
